@@ -35,6 +35,7 @@ def run(tier):
         n1 = ordering.get_perm_c_oracle(chk, 'C10.D4', prog, eff, cfgname)
         ordering.colamd_rules(chk, 'C10.D4', prog, cfgname)
         ordering.downward_slot_rule(chk, 'C10.slot', prog, cfgname)
+        ordering.sentinel_bound_rule(chk, 'C10.sentinel', prog, cfgname)
         n2 = preorder.run(chk, 'C10.D3', prog, eff, cfgname)
         if n1 < 6 or n2 < 5:
             raise AnalysisBroken('C10: %d get_perm_c leaves, %d sp_preorder leaves; floors 6, 5' % (n1, n2))
